@@ -21,6 +21,97 @@ type rPkg struct {
 	Deps      []string `json:"d,omitempty"`
 	Provides  []string `json:"p,omitempty"`
 	InstallIf []string `json:"i,omitempty"`
+	// the architecture FIELD of the record (`A:` in the index text, Package.Arch), independent of which
+	// per-architecture index lists the record: "" = the architecture of the index (the usual case), "-" = an
+	// empty field, anything else verbatim ("noarch", "all", another architecture's name).  Not shown to the
+	// model: availability is (name, version) membership per architecture index and nothing else of the record
+	// (C14.dq_ignores_other_fields, tie_dqPkgReads).
+	A string `json:"a,omitempty"`
+}
+
+// archField: the value of Package.Arch for a record listed in an index of architecture indexArch
+func (p rPkg) archField(indexArch string) string {
+	switch p.A {
+	case "":
+		return indexArch
+	case "-":
+		return ""
+	}
+	return p.A
+}
+
+// archFields: the architecture-field dimension of a family.  55% of the families keep the usual labelling (every
+// record carries the architecture of its index).  Otherwise every package NAME gets a label — the index's own
+// architecture, "noarch", "all", the name of another (requested or foreign) architecture, empty — used on every
+// architecture, and single records drift from it (12%: a rebuild that changed the field on one architecture).
+// Which versions an architecture lists is decided before and independently (deriveArch / glueDerive).
+func archFields(r *Rng, archs []rArch) {
+	if !r.Chance(45) {
+		return
+	}
+	pool := []string{"", "noarch", "noarch", "noarch", "all", "-", "s390x"}
+	for _, a := range archs {
+		pool = append(pool, a.Arch)
+	}
+	label := map[string]string{}
+	for ai := range archs {
+		for ii := range archs[ai].Indexes {
+			px := append([]rPkg(nil), archs[ai].Indexes[ii].Pkgs...)
+			for pi := range px {
+				l, ok := label[px[pi].Name]
+				if !ok {
+					l = ""
+					if r.Chance(55) {
+						l = Pick(r, pool)
+					}
+					label[px[pi].Name] = l
+				}
+				if r.Chance(12) {
+					l = Pick(r, pool)
+				}
+				if l == archs[ai].Arch {
+					l = ""
+				}
+				px[pi].A = l
+			}
+			archs[ai].Indexes[ii].Pkgs = px
+		}
+	}
+}
+
+// archFieldTags: which labellings a family carries (input distribution)
+func archFieldTags(archs []rArch) []string {
+	seen := map[string]bool{}
+	drift := false
+	by := map[string]string{}
+	for _, a := range archs {
+		for _, ix := range a.Indexes {
+			for _, p := range ix.Pkgs {
+				switch p.A {
+				case "":
+				case "-":
+					seen["A:empty"] = true
+				case "noarch", "all":
+					seen["A:"+p.A] = true
+				default:
+					seen["A:other-arch"] = true
+				}
+				if l, ok := by[p.Name]; ok && l != p.A {
+					drift = true
+				}
+				by[p.Name] = p.A
+			}
+		}
+	}
+	var out []string
+	for k := range seen {
+		out = append(out, k)
+	}
+	sort.Strings(out)
+	if drift {
+		out = append(out, "A:drift")
+	}
+	return out
 }
 type rIndex struct {
 	Pin  string `json:"pin"`
@@ -82,7 +173,7 @@ func buildArch(a rArch) builtArch {
 	for _, ix := range a.Indexes {
 		idx := &apk.APKIndex{}
 		for _, p := range ix.Pkgs {
-			pk := &apk.Package{Name: p.Name, Version: p.Version, Arch: a.Arch, Origin: p.Origin, ProviderPriority: p.Priority,
+			pk := &apk.Package{Name: p.Name, Version: p.Version, Arch: p.archField(a.Arch), Origin: p.Origin, ProviderPriority: p.Priority,
 				Dependencies: append([]string(nil), p.Deps...), Provides: append([]string(nil), p.Provides...), InstallIf: append([]string(nil), p.InstallIf...)}
 			idx.Packages = append(idx.Packages, pk)
 			b.ids[pk] = id
@@ -559,6 +650,7 @@ func (s resolverSuite) Gen(r *Rng, i int, tier string) any {
 		}
 		c.Archs = append(c.Archs, deriveArch(r, indexes, names[k]))
 	}
+	archFields(r, c.Archs)
 	return c
 }
 
@@ -617,7 +709,7 @@ func (s resolverSuite) Run(raw json.RawMessage) []Step {
 			steps = append(steps, Step{Line: strings.Join(fields, "\t"), Go: out, Desc: desc, Tags: tags, Mode: "verdict", Trivial: out == "err"})
 		} else {
 			fields[0] = "r.avail"
-			steps = append(steps, Step{Line: strings.Join(fields, "\t"), Go: out, Desc: desc, Tags: append(tags, fmt.Sprintf("archs:%d", len(c.Archs))), Mode: "verdict", Trivial: out == "err"})
+			steps = append(steps, Step{Line: strings.Join(fields, "\t"), Go: out, Desc: desc, Tags: append(append(tags, fmt.Sprintf("archs:%d", len(c.Archs))), archFieldTags(c.Archs)...), Mode: "verdict", Trivial: out == "err"})
 			// single-arch resolution must be unaffected by the filtering: resolve alone, compare with the model fed one arch
 			if !c.Multi {
 				continue
@@ -749,6 +841,9 @@ func describeCase(c rCase, self int) string {
 			fmt.Fprintf(&b, " {pin=%q", ix.Pin)
 			for _, p := range ix.Pkgs {
 				fmt.Fprintf(&b, " %s-%s", p.Name, p.Version)
+				if p.A != "" {
+					fmt.Fprintf(&b, " A:%s", p.archField(a.Arch))
+				}
 				if len(p.Deps) > 0 {
 					fmt.Fprintf(&b, " D%v", p.Deps)
 				}
